@@ -80,7 +80,7 @@ impl Property for C17 {
     }
     fn runs(&self, tier: Tier) -> u64 {
         match tier {
-            Tier::Quick => 2_000,
+            Tier::Quick => 8_000,
             Tier::Thorough => 200_000,
         }
     }
@@ -138,6 +138,13 @@ impl Property for C17 {
             };
             let b = if kind == 6 { *rng.pick(&[0i64, 1, -1, 9, -3, 127, -128, 64]) } else { pressed };
             sc.op("ev", &[kind, a, b]);
+            // counters are read modulo 16 / 256: now and then a burst of equal events takes one of them
+            // round its range
+            if (kind == 5 || kind == 6) && rng.chance(1, 12) {
+                for _ in 0..rng.range(17, 40) {
+                    sc.op("ev", &[kind, a, b]);
+                }
+            }
             // scans
             let scans = rng.range(1, 3);
             for _ in 0..scans {
